@@ -239,6 +239,8 @@ class Z3Dom:
         self.known_cache = {}
         self.str_codes = {}
         self.divisors = []
+        self.div_index = {}
+        self.div_facts = []
         self.ext_registry = []
         self.fact_trig = []
         self.loop_params = []    # active summarisation variables
@@ -283,10 +285,16 @@ class Z3Dom:
     def note_divisor(self, be):
         """every symbolic divisor met on the path; equalities are claimed on executions that do
         not divide by zero (hypothesis), and a path on which a divisor MUST vanish is reported"""
-        for d in self.divisors:
-            if d.eq(be):
-                return
+        key = be.get_id()
+        hit = self.div_index.get(key)
+        if hit is not None and hit.eq(be):
+            return
+        self.div_index[key] = be
         self.divisors.append(be)
+        # hypothesis `no division by zero`, handed to a query only when the divisor occurs in it
+        f = be != 0
+        self.div_facts.append(f)
+        self.add_fact(f, trigger=be)
 
     def to_real(self, v):
         if isinstance(v, R):
